@@ -1074,6 +1074,13 @@ func (e *SpecEnv) evalCall(x *SX) (*SV, error) {
 			// spawnedTotal(): number of go statements executed so far (ghost)
 			ki := e.vc.reg.get("ghost:spawnedTotal", 0, IntSort, nil)
 			return &SV{V: e.st.heapVar(ki), T: types.Typ[types.Int]}, nil
+		case "called":
+			// called("f"): number of direct calls of function (or method) f made so far by the function under contract (ghost)
+			if len(args) != 1 || args[0].K != "str" {
+				return nil, fmt.Errorf("called() needs a function name in quotes")
+			}
+			ki := e.vc.reg.get("ghost:called:"+args[0].Str, 0, IntSort, nil)
+			return &SV{V: e.st.heapVar(ki), T: types.Typ[types.Int]}, nil
 		case "spawned":
 			// spawned("f"): number of go statements that started function f so far (ghost)
 			if len(args) != 1 || args[0].K != "str" {
@@ -1094,16 +1101,17 @@ func (e *SpecEnv) evalCall(x *SX) (*SV, error) {
 			}
 			st := e.stateOf(v)
 			cht := st.toTerm(e.value(v), v.T)
+			// (as for sent(): the counter is read in the evaluation state, the channel expression keeps its own)
 			if fn.Name == "taken" {
 				ki := e.vc.reg.get("ghost:taken<"+chanKey(v.T)+">", 1, IntSort, nil)
-				return &SV{V: Select(st.heapVar(ki), cht), T: types.Typ[types.Int]}, nil
+				return &SV{V: Select(e.st.heapVar(ki), cht), T: types.Typ[types.Int]}, nil
 			}
 			s := scalarSort(ct.Elem())
 			if s == nil {
 				return nil, fmt.Errorf("lastTaken() needs a channel of scalar elements")
 			}
 			kl := e.vc.reg.get("ghost:lasttaken<"+chanKey(v.T)+">", 1, s, nil)
-			return &SV{V: Select(st.heapVar(kl), cht), T: ct.Elem()}, nil
+			return &SV{V: Select(e.st.heapVar(kl), cht), T: ct.Elem()}, nil
 		case "sent":
 			// sent(ch): number of messages placed on channel ch so far (ghost)
 			v, err := e.eval(args[0])
